@@ -1154,6 +1154,17 @@ def _payloads(k, seed, quick):
          b'\x61' * k,                                  # ASCII 'a...': looks like a hex string
          b'0123456789abcdefABCDEF0123456789abcdefABCDEF'[:k],    # ASCII hex digits
          _fill(seed, 'p', k)]
+    # payloads that look like the start of something a decoder might strip: witness version opcode + push length of
+    # the rest (any length the payload could be taken for), a complete P2PKH/P2SH/witness script head, a length
+    # prefix, a Base58 version byte
+    if k > 4:
+        ops = [0x00, 0x51, 0x60] if quick else [0x00] + list(range(0x51, 0x61))
+        for op in ops:
+            for ln in (k - 2, k - 1, k):
+                P.append(bytes([op, ln]) + _fill(seed, 'h', k - 2))
+        for head in (b'\x00\x14', b'\x00\x20', b'\x51\x20', b'\x76\xa9\x14', b'\xa9\x14', bytes([k]), bytes([k - 1]),
+                     b'\x05', b'\x6f', b'\xc4', b'\x30'):
+            P.append(head + _fill(seed, 'h', k - len(head)))
     if not quick:
         P += [_fill(seed, 'q%d' % i, k) for i in range(24)]
         for i in range(k):      # walking high bit / low bit
